@@ -209,6 +209,13 @@ class Repo:
           elif isinstance(st, (ast.FunctionDef, ast.AsyncFunctionDef)):
             f = FuncInfo(m, st)
             self.functions[f.qualname] = f
+    from mmsa import au as _au
+    _au.REPO_DEFINED.clear()
+    _au.REPO_DEFINED.update(f_.name for f_ in self.functions.values())
+    _au.REPO_DEFINED.update(c_.name for c_ in self.classes.values())
+    for c_ in self.classes.values():
+      _au.REPO_DEFINED.update(c_.annotations)
+      _au.REPO_DEFINED.update(c_.attrs)
     self.consulted = set()
     self.flattened = {}
     self.pinned_names = None
@@ -216,6 +223,7 @@ class Repo:
     if flatten:
       import json
       from mmsa import canon, inline
+      self.hoisted_walrus = canon.hoist_walrus_repo(self)
       self.canonicalised_calls = canon.canonicalise_repo(self)
       with open(os.path.join(os.path.dirname(os.path.abspath(__file__)), 'pinned_names.json')) as fh:
         pinned = set(json.load(fh))
